@@ -17,7 +17,7 @@ by Tal Leming and is copyright (c) 2005-2016, The RoboFab Developers:
 -	Just van Rossum
 """
 
-illegalCharacters = r"\" * + / : < > ? [ \ ] | \0".split(" ")
+illegalCharacters = '" * + / : < > ? [ \\ ] | \0'.split(" ")
 illegalCharacters += [chr(i) for i in range(1, 32)]
 illegalCharacters += [chr(0x7F)]
 reservedFileNames = "CON PRN AUX CLOCK$ NUL A:-Z: COM1".lower().split(" ")
